@@ -146,6 +146,9 @@ func (q PathQuery) edgeOK(from, to *ssa.BasicBlock, feasible map[*ssa.BasicBlock
 	return to == from.Succs[1]
 }
 
+// Feasible: the blocks reachable from the entry under Edge and Assume (nil when there are no assumptions).
+func (q PathQuery) Feasible() map[*ssa.BasicBlock]bool { return q.feasibleBlocks() }
+
 // feasibleBlocks: the blocks reachable from the function entry under Edge and Assume (fixpoint: a phi folds to a
 // constant once the blocks feeding its other values are known to be unreachable).
 func (q PathQuery) feasibleBlocks() map[*ssa.BasicBlock]bool {
